@@ -57,6 +57,11 @@ func compareDeps(clause string, got []core_domain.CodeDependency, want []expDep)
 
 func c19Pom(c *engine.C, pfx string) (string, []expDep) {
 	var sb strings.Builder
+	// the order in which the group ids are handed out to the entries; optionally com.alpha.ext directly behind com.alpha
+	groupOrder := c19Groups
+	if c.Bool(pfx + "extending-group-directly-behind-its-parent") {
+		groupOrder = []string{c19Groups[0], c19Groups[3], c19Groups[1], c19Groups[2]}
+	}
 	sb.WriteString("<?xml version=\"1.0\" encoding=\"UTF-8\"?>\n")
 	if c.Bool(pfx + "namespaces") {
 		sb.WriteString("<project xmlns=\"http://maven.apache.org/POM/4.0.0\" xmlns:xsi=\"http://www.w3.org/2001/XMLSchema-instance\" xsi:schemaLocation=\"http://maven.apache.org/POM/4.0.0 http://maven.apache.org/xsd/maven-4.0.0.xsd\">\n")
@@ -81,7 +86,7 @@ func c19Pom(c *engine.C, pfx string) (string, []expDep) {
 	var want []expDep
 	sb.WriteString("  <dependencies>\n")
 	for i := 0; i < n; i++ {
-		g := c19Groups[i%len(c19Groups)]
+		g := groupOrder[i%len(groupOrder)]
 		a := fmt.Sprintf("art%d", i)
 		shape := engine.PickTag(c, fmt.Sprintf("%sd%d-shape", pfx, i), "g-a-v", "g-a-v-scope", "a-g", "scope-first", "with-exclusions", "type-optional", "comment-inside", "version-property")
 		e := expDep{Group: g, Artifact: a}
@@ -142,6 +147,11 @@ var c19GradleForms = []string{"single-quoted", "double-quoted", "paren-single", 
 
 func c19Gradle(c *engine.C, pfx string) (string, []expDep) {
 	var sb strings.Builder
+	// the order in which the group ids are handed out to the entries; optionally com.alpha.ext directly behind com.alpha
+	groupOrder := c19Groups
+	if c.Bool(pfx + "extending-group-directly-behind-its-parent") {
+		groupOrder = []string{c19Groups[0], c19Groups[3], c19Groups[1], c19Groups[2]}
+	}
 	switch engine.PickTag(c, pfx+"before", "plugins+repositories", "nothing", "plugins", "ext-block") {
 	case "plugins+repositories":
 		sb.WriteString("plugins {\n    id 'java'\n}\n\nrepositories {\n    mavenCentral()\n}\n\n")
@@ -154,7 +164,7 @@ func c19Gradle(c *engine.C, pfx string) (string, []expDep) {
 	var want []expDep
 	sb.WriteString("dependencies {\n")
 	for i := 0; i < n; i++ {
-		g := c19Groups[i%len(c19Groups)]
+		g := groupOrder[i%len(groupOrder)]
 		a := fmt.Sprintf("art%d", i)
 		form := c19GradleForms[c.Choose(len(c19GradleForms), fmt.Sprintf("%se%d-form", pfx, i))]
 		if form != "single-quoted" {
